@@ -133,6 +133,17 @@ CHECKS = {
              "futex wake): join/free never returned before the target finished, its writes were visible, state TERMINATED, "
              "handle NULL, and every join returned",
         ref="DESIGN.md §5 C03"),
+    "C06": dict(
+        technique="runtime monitoring: completion ledger checked at the instant ABT_xstream_join / ABT_finalize return while "
+                  "units were blocked at call time and are resumed later by an external thread; white-box and API reads of "
+                  "the per-pool blocked counter (continuous >=0 sampler, exact equality at quiescent points); delay "
+                  "injection at suspend/resume/scheduler-stop points; ASan/TSan builds",
+        category="exploration",
+        text="held on the executions produced: in hundreds of scenarios per run the join/finalize returned only after every "
+             "unit of the stream's private pool (or of a stacked scheduler's pool on it) had completed although all were "
+             "blocked (eventual, cond, self-suspend, mutex) when the call was issued; stream TERMINATED afterwards; the blocked "
+             "counter equalled the number of blocked units at quiescence, was 0 afterwards and never sampled negative",
+        ref="DESIGN.md §5 C06"),
 }
 
 
